@@ -230,6 +230,8 @@ impl<T> Signal<T> {
     #[inline(always)]
     #[cfg(feature = "async")]
     pub(crate) fn register_waker(&mut self, waker: &Waker) {
+        #[cfg(feature = "verif")]
+        crate::verif::at(crate::verif::SITE_REGISTER_WAKER);
         self.waker = KanalWaker::Async(waker.clone())
     }
 
